@@ -262,6 +262,76 @@ def judge_case(rec, kind: str, w: int, chain, sample=False, peek=True, w_before=
         rec.count("outcome.accepted-correct")
 
 
+def sequence_probes(rec):
+    """(a) the index of a Slice is edited after the slice was looked at: the final index counts; (b) iterating a connectable of width w
+    yields its w bits, bit i selecting exactly bit i (taken with islice, so that a never-ending iteration is seen, not waited for)."""
+    import hdl21 as h
+    import itertools as it
+    from .. import pkgread
+
+    def exported_bits(m, instname="d"):
+        pkg = h.to_proto(m)
+        flat = pkgread.flatten(pkg)
+        return flat
+
+    for w in (3, 4, 6):
+        for first, second, peek in ((0, [1, 3, None], True), ([0, 2, None], -1, True), (1, [None, None, -1], True), (0, [1, 3, None], False)):
+            rec.count("history.index-edited")
+            case = {"kind": "index-edit", "w": w, "first": first, "second": second, "peek": peek}
+            rec.case(key=jhash(case), nontrivial=True, sample=None)
+            sel, cls = py_select(w, [second])
+            design = make_design("Signal", w, [second], len(sel), arrays=False)
+            try:
+                built = build.Built()
+                built.uid = f"_{next(build._counter)}"
+                mb = build.ModBuilder(design, design["modules"][0], built)
+                mb.declare()
+                mb.connect_all()
+                sl = mb.insts["d"].conns["p"]
+                # (built with the final index; now replay the history on the live Slice: first index, a look, then the final one)
+                final_index = sl.index
+                sl.index = first if isinstance(first, int) else slice(*first)
+                sl._inner = None
+                if peek:
+                    _ = (sl.width, sl.top, sl.bot)
+                sl.index = final_index
+                got_w = sl.width
+                if got_w != len(sel):
+                    rec.violation("reported-width-wrong", f"Signal(w={w}): a slice made as [{first}], looked at, then given the index {second} reports width {got_w}; "
+                                                          f"Python selects {len(sel)} bit(s)", case=case, parent="Signal")
+                    continue
+                pkg = h.to_proto(mb.finish())
+                diffs = pkgread.compare(refsem.flatten(design), pkgread.flatten(pkg))
+            except Exception as e:
+                rec.violation("valid-index-rejected:Signal", f"Signal(w={w}): slice index edited from {first} to {second} (peek={peek}) raised {oracle.exc_sig(e)[:120]}", case=case, parent="Signal", stage="edit")
+                continue
+            if diffs:
+                rec.violation("exported-bits-wrong", f"Signal(w={w}): slice index edited from {first} to {second} after a look: " + "; ".join(diffs[:2]), case=case, parent="Signal")
+    # iteration
+    for w in (1, 3, 5):
+        m = h.Module(name=f"IterProbe{next(build._counter)}")
+        s_ = m.add(h.Signal(width=w), name="s")
+        t_ = m.add(h.Signal(width=w), name="t")
+        for what, obj in (("Signal", s_), ("Slice", s_[0:w]), ("Concat", h.Concat(s_[0:1], t_[1:w]) if w > 1 else h.Concat(s_))):
+            rec.count("probe.iteration")
+            case = {"kind": "iteration", "what": what, "w": w}
+            try:
+                bits = list(it.islice(iter(obj), w + 3))
+            except Exception as e:
+                rec.violation("iteration-raises", f"iterating a {what} of width {w} raised {type(e).__name__}: {str(e)[:80]}", case=case)
+                continue
+            if len(bits) != w:
+                rec.violation("iteration-length-wrong", f"iterating a {what} of width {w} yields {'at least ' if len(bits) == w + 3 else ''}{len(bits)} items", case=case)
+                continue
+            try:
+                idx = [(b.top, b.bot, b.width) for b in bits]
+            except Exception as e:
+                rec.violation("iteration-raises", f"bits of a {what} of width {w}: {type(e).__name__}", case=case)
+                continue
+            if idx != [(i + 1, i, 1) for i in range(w)]:
+                rec.violation("iteration-bits-wrong", f"iterating a {what} of width {w} yields slices {idx}", case=case)
+
+
 def all_indices(W: int, w: int):
     rng_ = list(range(-2 * W, 2 * W + 1))
     for i in rng_:
@@ -336,6 +406,8 @@ def run(ctx, rec):
             # the same final design, reached by editing signal widths after the expression was created (and looked at)
             wb = [x for x in range(2, w + 4) if x != w][(k // 4) % (w + 1)]
             judge_case(rec, kind, w, chain, peek=(k % 8 == 1), w_before=wb)
+    if ctx.shard == 0:
+        sequence_probes(rec)
     if not ctx.quick and ctx.shard == 0:
         from .. import suite
 
